@@ -8,6 +8,7 @@ The topology part (cells, cell neighbours, boundary, junction neighbours) is sha
 -/
 import CBV.Model.Common
 import CBV.Gen.Tables
+import CBV.Gen.TC15
 
 namespace CBV.C15
 open CBV
